@@ -461,6 +461,41 @@ func (in *Interp) decide(c *term.Term) bool {
 	if d >= in.cfg.MaxDecisions {
 		panic(pathEnd{"unwind", fmt.Sprintf("decision bound %d exceeded", in.cfg.MaxDecisions)})
 	}
+	if in.followEnv != nil && in.job.Mode != "real" {
+		// concolic order: when the followed valuation satisfies the path
+		// condition so far, the side it takes is feasible by witness; only the
+		// other side needs a query
+		if v, ok := term.Eval(c, in.followEnv, in.followMemo); ok && in.followHolds() {
+			other := term.Not(c)
+			if !v.B {
+				other = c
+			}
+			// the other side is not queried here (each query costs seconds on
+			// the long path conditions of a followed run): it is forked
+			// unconditionally and found infeasible, if it is, by the first
+			// obligation or decision of that path
+			fo := true
+			_ = other
+			val := 0
+			if v.B {
+				val = 1
+			}
+			if fo {
+				alt := append(append([]Decision{}, in.decisions...), Decision{Val: 1 - val})
+				in.work = append(in.work, alt)
+				in.forks++
+				in.decisions = append(in.decisions, Decision{Val: val})
+			} else {
+				in.decisions = append(in.decisions, Decision{Val: val, Forced: true})
+			}
+			if v.B {
+				in.addPC(c)
+			} else {
+				in.addPC(term.Not(c))
+			}
+			return v.B
+		}
+	}
 	ft := in.feasible(c)
 	ff := true
 	if ft {
@@ -469,6 +504,17 @@ func (in *Interp) decide(c *term.Term) bool {
 	}
 	switch {
 	case ft && ff:
+		if in.followEnv != nil {
+			if v, ok := term.Eval(c, in.followEnv, in.followMemo); ok && !v.B {
+				// the followed concrete run takes the false side: explore it first
+				alt := append(append([]Decision{}, in.decisions...), Decision{Val: 1})
+				in.work = append(in.work, alt)
+				in.decisions = append(in.decisions, Decision{Val: 0})
+				in.addPC(term.Not(c))
+				in.forks++
+				return false
+			}
+		}
 		alt := append(append([]Decision{}, in.decisions...), Decision{Val: 0})
 		in.work = append(in.work, alt)
 		in.decisions = append(in.decisions, Decision{Val: 1})
@@ -485,6 +531,19 @@ func (in *Interp) decide(c *term.Term) bool {
 		return false
 	}
 	panic(pathEnd{"infeasible", "both sides infeasible"})
+}
+
+// followHolds: the followed valuation satisfies every conjunct of the path
+// condition (checked incrementally)
+func (in *Interp) followHolds() bool {
+	for in.followChecked < len(in.pc) {
+		v, ok := term.Eval(in.pc[in.followChecked], in.followEnv, in.followMemo)
+		if !ok || !v.B {
+			return false
+		}
+		in.followChecked++
+	}
+	return true
 }
 
 func (in *Interp) addPC(c *term.Term) {
